@@ -7,6 +7,7 @@ from dateutil import parser as date_parser
 from dateutil.relativedelta import relativedelta
 from typing import Dict, List, Literal, Any, Callable
 from math import trunc, ceil, floor
+from decimal import Decimal, Context, ROUND_HALF_UP, ROUND_UP, ROUND_DOWN
 from itertools import zip_longest
 
 
@@ -339,16 +340,20 @@ class AbstractExcelInPython(ABC):
 
         return result
 
+    def _decimal_round(self, number: float, num_digits: int, rounding: str):
+        # Округляем десятичную запись числа (15 значащих цифр, как в excel), а не двоичное значение
+        decimal_number = Decimal(f'{number:.15g}') if isinstance(number, float) else Decimal(number)
+        result = decimal_number.quantize(Decimal(1).scaleb(-int(num_digits)), rounding=rounding, context=Context(prec=400))
+        return int(result) if isinstance(number, int) else float(result)
+
     def _round(self, number: float, num_digits: int):
-        return round(number, int(num_digits))
+        return self._decimal_round(number, num_digits, ROUND_HALF_UP)
 
     def _roundup(self, number: float, num_digits: int):
-        factor = 10 ** num_digits
-        return ceil(number * factor) / factor
+        return self._decimal_round(number, num_digits, ROUND_UP)
 
     def _rounddown(self, number: float, num_digits: int):
-        factor = 10 ** num_digits
-        return floor(number * factor) / factor
+        return self._decimal_round(number, num_digits, ROUND_DOWN)
 
     def _date(self, year: int, month: int, day: int):
         if isinstance(year, str):
